@@ -104,3 +104,54 @@ pub fn build_id_map(sc: &PairScenario, trace: &Trace, s: usize) -> Result<IdMap,
     }
     Ok(IdMap { id_to_sub, sub_to_id })
 }
+
+/// Tracks, from the wire alone, the packets a sender has emitted beyond the newest packet-window base it
+/// has been told: count and fragment-rounded bytes (what the receiver will have to allocate).
+pub struct OutstandingTracker {
+    pub base: u32,
+    pub next: u32,
+    origin: u32,
+    map: std::collections::BTreeMap<u32, u64>,
+    pub total: u64,
+}
+
+impl OutstandingTracker {
+    pub fn new(base: u32) -> Self {
+        OutstandingTracker { base: base & PKT_MASK, next: base & PKT_MASK, origin: base & PKT_MASK, map: Default::default(), total: 0 }
+    }
+
+    /// A datagram seen in a data frame emitted by the sender. Returns (packets outstanding, bytes outstanding).
+    pub fn on_datagram(&mut self, pkt: u32, last: u16, len: u32) -> (usize, u64) {
+        let lead = pkt.wrapping_sub(self.base) & PKT_MASK;
+        if lead < 0x80000 {
+            if (pkt.wrapping_sub(self.next) & PKT_MASK) < 0x80000 {
+                self.next = (pkt + 1) & PKT_MASK;
+            }
+            let key = pkt.wrapping_sub(self.origin) & PKT_MASK;
+            if !self.map.contains_key(&key) {
+                let a = if last == 0 { len as u64 } else { (last as u64 + 1) * FRAG as u64 };
+                self.map.insert(key, a);
+                self.total += a;
+            }
+        }
+        (self.map.len(), self.total)
+    }
+
+    /// A packet-window base carried by an ack frame handed to the sender.
+    pub fn on_ack_base(&mut self, packet_base: u32) {
+        if packet_base > PKT_MASK {
+            return;
+        }
+        let delta = packet_base.wrapping_sub(self.base) & PKT_MASK;
+        let span = self.next.wrapping_sub(self.base) & PKT_MASK;
+        if delta <= span && delta != 0 {
+            self.base = packet_base;
+            let cut = self.base.wrapping_sub(self.origin) & PKT_MASK;
+            let keep = self.map.split_off(&cut);
+            for (_, a) in self.map.iter() {
+                self.total -= *a;
+            }
+            self.map = keep;
+        }
+    }
+}
